@@ -355,11 +355,16 @@ func c19(p *Prog, r *Report) {
 			why = "values above 2^62-1 are not rejected"
 		}
 	}
-	var encBytes [][]ssa.Value
+	// one appended byte: bits [shr, shr+8) of an SSA value
+	type encByte struct {
+		v   ssa.Value
+		shr int
+	}
+	var encBytes [][]encByte
 	var gotA []string
 	for i, c := range cases {
 		// the appended bytes: stores into the variadic array of this block
-		var vals []ssa.Value
+		var vals []encByte
 		var retOK bool
 		for _, in := range c.block.Instrs {
 			switch x := in.(type) {
@@ -368,15 +373,34 @@ func c19(p *Prog, r *Report) {
 					if k, ok := ia.Index.(*ssa.Const); ok {
 						idx := int(k.Int64())
 						for len(vals) <= idx {
-							vals = append(vals, nil)
+							vals = append(vals, encByte{})
 						}
-						vals[idx] = x.Val
+						vals[idx] = encByte{x.Val, 0}
 					}
 				}
 			case *ssa.Return:
 				if call, ok := x.Results[0].(*ssa.Call); ok {
 					if b, ok := call.Call.Value.(*ssa.Builtin); ok && b.Name() == "append" && call.Call.Args[0] == ssa.Value(app.Params[0]) {
 						retOK = true
+					}
+					// binary.BigEndian.AppendUintN(b, x): the N/8 bytes of x, most significant first
+					if f := call.Call.StaticCallee(); f != nil && len(call.Call.Args) == 3 && call.Call.Args[1] == ssa.Value(app.Params[0]) {
+						n := 0
+						switch f.RelString(nil) {
+						case "(encoding/binary.bigEndian).AppendUint16":
+							n = 2
+						case "(encoding/binary.bigEndian).AppendUint32":
+							n = 4
+						case "(encoding/binary.bigEndian).AppendUint64":
+							n = 8
+						}
+						if n > 0 {
+							retOK = true
+							vals = nil
+							for j := 0; j < n; j++ {
+								vals = append(vals, encByte{call.Call.Args[2], 8 * (n - 1 - j)})
+							}
+						}
 					}
 				}
 			}
@@ -444,7 +468,18 @@ func c19(p *Prog, r *Report) {
 		ee := &bitEval{env: map[ssa.Value]bits{app.Params[1]: bitsInput(width)}, memo: map[ssa.Value]bits{}}
 		var eb []bits
 		for _, bv := range encBytes[i] {
-			eb = append(eb, ee.of(bv).trunc(8))
+			if bv.v == nil {
+				ee.err = "a byte of the encoding is not written"
+				break
+			}
+			full := ee.of(bv.v)
+			var one bits
+			for j := 0; j < 8; j++ {
+				if bv.shr+j < 64 {
+					one[j] = full[bv.shr+j]
+				}
+			}
+			eb = append(eb, one)
 		}
 		if ee.err != "" {
 			r.Fail(R2, key, p.Pos(app.Pos()), "encoder byte expression outside the bit domain: "+ee.err)
